@@ -99,6 +99,10 @@ func DeleteBeforeAssociations(db *gorm.DB) {
 
 				_, foreignValues := schema.GetIdentityFieldValuesMap(db.Statement.Context, db.Statement.ReflectValue, foreignFields)
 				column, values := schema.ToQueryValues(table, relForeignKeys, foreignValues)
+				if len(values) == 0 {
+					// no primary key given: nothing identifies the join rows (as for has one / has many)
+					continue
+				}
 				queryConds = append(queryConds, clause.IN{Column: column, Values: values})
 
 				if db.AddError(tx.Clauses(clause.Where{Exprs: queryConds}).Delete(modelValue).Error) != nil {
